@@ -508,6 +508,7 @@ Proof.
   - (* AEpSockRemove *)
     destruct (nth_error (eps s) e) as [x|] eqn:E; [|inv_some H; same].
     destruct (e_freed x); [inv_some H; same|].
+    destruct (negb (e_closed x)); [inv_some H; same|].
     destruct (e_onlist x) eqn:Eo; inv_some H; [|same].
     ep_facts s e (fun x => eset_onlist x false) x E.
     gen_plain; [| ele_at E |]; ecs x; bdestr; lia.
@@ -577,9 +578,10 @@ Proof.
     destruct (p_busy x =? 0); [|discriminate H]. inv_some H.
     pipe_facts s p pset_stopped x E. gen_plain; [|ele|]; pcs x; bdestr; lia.
   - (* APipeRemove *)
-    inv_some H. destruct (nth_error (pipes s) p) as [x|] eqn:E.
+    destruct (nth_error (pipes s) p) as [x|] eqn:E; [|inv_some H; same].
+    destruct (p_inmap x); inv_some H.
+    + pipe_facts s p (fun x => pset_unlist (pset_unmap x)) x E. gen_plain; [|ele|]; pcs x; bdestr; lia.
     + pipe_facts s p pset_unlist x E. gen_plain; [|ele|]; pcs x; bdestr; lia.
-    + rewrite nth_upd_none by auto. nochange s. same.
   - (* ASubmit *)
     destruct k as [c|].
     + destruct (nth_error (ctxs s) c) as [x|] eqn:E; [|inv_some H; same].
@@ -994,9 +996,17 @@ Proof.
     + left. apply in_or_app; right; simpl; auto.
     + right. split; [discriminate|eauto].
   - (* APipeRemove *)
+    destruct (nth_error (pipes s) p) as [x|] eqn:E.
+    2:{ inv_some H. split; [exists []; exact Hq0|]. intros p' x1 H1 H2 H3. right. split; [|eauto].
+        intros X; injection X as <-. rewrite E in H1; discriminate H1. }
+    destruct (p_inmap x).
+    { inv_some H. split; [exists []; exact Hq0|]. intros p' x1 H1 H2 H3. simpl in *. rewrite nth_upd in H1.
+      destruct (Nat.eq_dec p p') as [->|].
+      + rewrite E in H1. injection H1 as <-. destruct x; discriminate H3.
+      + right. split; [congruence|eauto]. }
     inv_some H. split; [exists []; exact Hq0|]. intros p' x1 H1 H2 H3. simpl in *. rewrite nth_upd in H1.
     destruct (Nat.eq_dec p p') as [->|].
-    + destruct (nth_error (pipes s) p') as [y|]; [|discriminate H1]. injection H1 as <-. destruct y; discriminate H3.
+    + rewrite E in H1. injection H1 as <-. destruct x; discriminate H3.
     + right. split; [congruence|eauto].
 Qed.
 
@@ -1135,8 +1145,13 @@ Definition pinned_defect (fx : fixes) : Prop :=
 
 Lemma pinned_defect_holds fx : all_fixed fx = false -> pinned_defect fx.
 Proof.
-  destruct fx as [[] [] [] [] []]; unfold all_fixed; simpl; intros H; try discriminate H;
-    first [apply ephold_refuted | apply epid_refuted | apply ctxfini_refuted | apply lateop_refuted | apply ctxopen_refuted].
+  destruct fx as [a b c d e]. intros H.
+  destruct a; [|exact (ephold_refuted b c d e)].
+  destruct b; [|exact (epid_refuted true c d e)].
+  destruct c; [|exact (ctxfini_refuted true true d e)].
+  destruct d; [|exact (lateop_refuted true true true e)].
+  destruct e; [|exact (ctxopen_refuted true true true true)].
+  unfold all_fixed in H; simpl in H; discriminate H.
 Qed.
 
 Definition Terminates (fx : fixes) : Prop :=
